@@ -67,9 +67,13 @@ pub struct State {
     /// optional address-hint substitution for mmap(0, ..) calls: consumed front to back
     pub mmap_hints: Vec<usize>,
     /// placement steering for mmap(0, ..) calls, consumed front to back: 1 = hint directly
-    /// above the most recent successful anonymous mapping, 2 = directly below it, other = none
+    /// above the most recent successful anonymous mapping, 2 = directly below it, 3 = 8 MiB
+    /// below it (non-contiguous), other = none
     /// (a hint without MAP_FIXED is only a preference: any placement is legal kernel behaviour)
     pub mmap_hint_modes: Vec<u8>,
+    /// when non-empty and `mmap_hint_modes` is exhausted, this pattern repeats forever
+    pub mmap_hint_cycle: Vec<u8>,
+    pub mmap_hint_cycle_pos: usize,
     pub last_map: (usize, usize),
 }
 
@@ -153,6 +157,7 @@ pub fn clear_plan() {
     with_state(|s| {
         s.mmap_hints.clear();
         s.mmap_hint_modes.clear();
+        s.mmap_hint_cycle.clear();
     });
 }
 
@@ -166,6 +171,15 @@ pub fn map_refusals() -> usize {
 
 pub fn set_mmap_hints(h: Vec<usize>) {
     with_state(|s| s.mmap_hints = h);
+}
+
+/// Placement pattern that repeats for every mmap(0, ..) call until cleared.
+pub fn set_mmap_hint_cycle(h: Vec<u8>) {
+    with_state(|s| {
+        s.mmap_hint_cycle = h;
+        s.mmap_hint_cycle_pos = 0;
+        s.last_map = (0, 0);
+    });
 }
 
 pub fn set_mmap_hint_modes(h: Vec<u8>) {
@@ -267,14 +281,24 @@ unsafe fn dispatch_slow(st: &mut State, n: usize, mut args: [usize; 6], nargs: u
             args[0] = h;
         }
     }
-    if n == nr::MMAP && args[0] == 0 && !st.mmap_hint_modes.is_empty() {
-        let m = st.mmap_hint_modes.remove(0);
+    if n == nr::MMAP && args[0] == 0 && (!st.mmap_hint_modes.is_empty() || !st.mmap_hint_cycle.is_empty()) {
+        let m = if !st.mmap_hint_modes.is_empty() {
+            st.mmap_hint_modes.remove(0)
+        } else {
+            let v = st.mmap_hint_cycle[st.mmap_hint_cycle_pos % st.mmap_hint_cycle.len()];
+            st.mmap_hint_cycle_pos += 1;
+            v
+        };
         let (la, ll) = st.last_map;
         if la != 0 {
             if m == 1 {
                 args[0] = la + ll;
             } else if m == 2 && la > args[1] {
                 args[0] = la - args[1];
+            } else if m == 3 && la > args[1] + (8 << 20) {
+                // far: leave an 8 MiB hole below the previous mapping, so the new region is NOT
+                // contiguous with it (what foreign mappings next to a heap cause)
+                args[0] = la - args[1] - (8 << 20);
             }
         }
     }
